@@ -27,6 +27,7 @@ CHECKS = {
             "bounded progress instead of termination (30 CPU-s per call); domain filter evaluated by the harness; paths not driven are not judged"),
     "C06": ("runtime monitoring: invariant oracle on every decode result (sortedness, pairing via unique ids, strict control point "
             "order, clamps), path equality bytes/str/file with the decoder perturbed by other content between the entry points, "
+            "a counted class of slider lines with doubled / dangling / leading separators and lost points in the curve field, "
             "reference-model comparison of TandemSorter and the legacy sort",
             "invariants taken from the property statement; hostile inputs are generated, not enumerated"),
     "C07": ("runtime monitoring: differential oracle, three conversion entry points against each other and every mode-dispatching API "
